@@ -13,7 +13,7 @@ import numpy as np
 LEVEL = "proof"
 MANIFEST_ENTRY = {
     "category": "proof",
-    "text": "Lean 4 theorems (61, over the reals) about one executable model (generic numeric carrier, run at Float) of BOTH the torch port "
+    "text": "Lean 4 theorems (81, over the reals) about one executable model (generic numeric carrier, run at Float) of BOTH the torch port "
             "(radon_torch, get_fourier_filter_torch, iradon_torch) and the scikit-image reference (radon circle mode, _get_fourier_filter, "
             "iradon linear): the sampling coordinates of the two Radon algorithms coincide for every size >= 2, angle and pixel (grid_sample "
             "normalisation round trip, rotation about N//2), hence every sinogram sample agrees; the six Fourier filters coincide bin by bin "
@@ -35,26 +35,58 @@ MANIFEST_ENTRY = {
             "circle-to-square padding, rotation-axis pixel reads bin D//2, back-projection positions stay inside the detector bounds; explicit "
             "output_size: agreement, linearity and shape for every output size. Inputs are drawn over memory-layout x dtype classes "
             "(contiguous, transposed, batch-permuted, step-sliced, float64; theta float32/float64/strided) with a values-only predicate "
-            "(same result as the contiguous float32 call), and iradon's optional output_size is drawn (default, =N, <N, >N, 2N). The pre-fix conventions (reflected rotation, end-point cosine window, extrapolating "
+            "(same result as the contiguous float32 call), and iradon's optional output_size is drawn (default, =N, <N, >N, 2N). Growth round 5: images of ANY shape H x W (disc mask on the full grid, crop to the inscribed square with (e+1)//2 = "
+            "int(ceil(e/2)), the shared quirk that the mask centre is one pixel off the rotation centre for an even crop with odd excess) "
+            "— torch = scikit-image sample by sample, linear, 0-degree column sums, and the square model is the special case; the default "
+            "angle set of radon (arange(180)); iradon_torch WITH ITS VALIDATION (theta-length check, optional output_size, the exception "
+            "raised inside get_fourier_filter_torch after the padding steps; the padded size is never odd or 0): for every argument "
+            "combination the port and scikit-image both raise ValueError or return the same reconstruction; filter size 0 (both reject, "
+            "different classes — counterexample replayed); the code's write loops (one preallocated zero tensor, radon_images[:, i, :] = "
+            "projection per angle across the batch) refine the per-angle / per-image map, so batching is proved, not by construction; "
+            "SESSIONS: for every history of public calls, including calls that raise, outcome i is the outcome of call i alone and equals "
+            "the reference's (session_history_independent, session_agree) — tied to the code by a history stream that runs 4-9 calls per "
+            "history on a fresh instance of the module (valid calls, calls rejected before/after the padding, FFT and filtering steps, a "
+            "caller overwriting returned and passed tensors, repeated calls), checks every valid call against scikit-image, the model and "
+            "the same call on another fresh module instance, and reports the whole history as the failing input. Every public function is "
+            "also called with its documented defaults omitted and positionally (defaults / argument order), with device= and dtype= "
+            "options, integer-dtype angle tensors, one-pixel detectors, output_size 0 and unknown filter spellings. "
+            "The pre-fix conventions (reflected rotation, end-point cosine window, extrapolating "
             "interpolant) are kept as legacy definitions with their exact agreement domain and a counterexample each. The model is tied to "
             "the code on every run by Float correspondence with the real torch code and with the real scikit-image (1e-9), and the property "
             "predicate (agreement with scikit-image, batched = single, linearity, 0-degree column sums, forward projection inside "
             "TomographyConv._sirt_run_epoch) is evaluated on the implementations as the failing-input search.",
-    "note": "Partial by nature: numerical agreement torch-vs-skimage is measured (sizes 2..33, 1..8 angles, 6 filters, batches 1..3, circle "
-            "on/off, default and given angles); what is proved is that the two algorithms as modelled are the same real function, linear, "
-            "with the stated symmetries. Batching is by construction in the model (per-item map) and measured on torch. Trusted: "
-            "grid_sample(align_corners=True, zeros) and skimage warp(order=1, constant) are zero-padded bilinear interpolation; torch/scipy "
-            "fft compute the DFT sum; IEEE rounding. float64 images (radon_torch raises a dtype error), N=1 (scikit-image itself fails) and "
-            "explicit output_size are outside the checked domain.",
-    "technique": "Lean 4 proof (real-number identities, floor/clamp case analysis, sums) + three-way model/torch/scikit-image correspondence",
+    "note": "Partial by nature: numerical agreement torch-vs-skimage is measured (square sizes 2..33 and H x W shapes with shorter side "
+            "2..24, 1..8 or the default 180 angles, 6 filters, batches 1..3, circle on/off, default and given angles, default and explicit "
+            "output sizes incl. 0, detector widths 1..48); what is proved is that the two algorithms as modelled are the same real function "
+            "(or raise the same exception class), linear, with the stated symmetries, for every history of calls. Batching of radon_torch is "
+            "proved as a refinement of the write loop; batching of iradon_torch is still by construction in the model (per-item map) and "
+            "measured on torch. That the real module keeps no state between calls is measured (history stream), the model's state is Unit. "
+            "Trusted: grid_sample(align_corners=True, zeros) and skimage warp(order=1, constant) are zero-padded bilinear interpolation; "
+            "torch/scipy fft compute the DFT sum; IEEE rounding. Outside the checked domain: N=1 for radon (scikit-image itself fails), "
+            "zero projections (A=0), integer-dtype images (torch's grid_sample has no integer kernel: radon_torch raises "
+            "NotImplementedError; recorded in the evidence as the outcome of a rejected call, not judged).",
+    "technique": "Lean 4 proof (real-number identities, floor/clamp case analysis, sums, loop-to-map refinement, sessions with Unit state) + "
+                 "three-way model/torch/scikit-image correspondence incl. call histories with rejected calls on fresh module instances",
 }
-RULE = ("a case is one (function, size, angle set, image-or-sinogram recipe, filter, circle, batch) call evaluated on torch, scikit-image "
-        "and the model; distinct non-trivial = distinct (stream, size, #angles, image kind, filter, circle, batch) with a non-zero input")
+RULE = ("a case is one (function, size or shape, angle set, image-or-sinogram recipe, filter, circle, batch, call form) call evaluated on torch, "
+        "scikit-image and the model, or one history of 4-9 such calls (valid and rejected) in one process; distinct non-trivial = distinct "
+        "(stream, size/shape, #angles, image kind, filter, circle, batch, layout, call form) with a non-zero input, resp. distinct sequence of "
+        "call kinds of a history")
 TRUSTED = ["torch.nn.functional.grid_sample(bilinear, zeros, align_corners=True) and skimage.transform.warp(order=1, mode='constant') are "
            "zero-padded bilinear interpolation (shared primitive `bilinear` of the model; validated by both correspondence streams)",
            "torch.fft / scipy.fft compute the defining DFT sum (Core/Dft.lean)",
-           "scikit-image's radon/iradon/_get_fourier_filter as installed in /venv are the external oracle of the property"]
-ASSUMPTIONS = ["sizes 2..33 (scikit-image's radon itself raises for N=1); image values are float32-representable (given as float32 or float64 tensors)",
+           "scikit-image's radon/iradon/_get_fourier_filter as installed in /venv are the external oracle of the property",
+           "executing radon.py a second time under another module name (importlib) yields an instance with its own, initial module-level "
+           "state and otherwise the same behaviour (history stream: start state of every history, history-free reference of every call)"]
+ASSUMPTIONS = ["radon: square sizes 2..33 and shapes H x W with shorter side 2..24 and excess 0..9 (scikit-image's radon itself raises for N=1); iradon: "
+               "detector widths 1..48, at least one projection; image values are float32-representable (given as float32 or float64 tensors)",
+               "histories: 4-9 calls, batch size and number of angles mostly shared inside a history, padded-size family 64 (85 %) or 128; the "
+               "rejected calls are drawn from 12 kinds (unknown filter spelling, wrong number of angles, negative / fractional output_size, "
+               "wrong ndim, integer image, 2-D / list theta, odd / zero filter size, unknown filter name) and carry no predicate of their own "
+               "(their outcome is recorded); state that survives in OTHER modules than radon.py is not reset by the fresh instance (it would "
+               "still be seen by the scikit-image comparison, but the replay of such a history depends on the process)",
+               "non-square images: the property's quantifier names square sizes, its statement 'every image size'; the port has a dedicated "
+               "crop branch that scikit-image's circle mode has too, so agreement is checked there as well (key radon-nonsquare)",
                "angle values are float32-representable so torch (float32) and scikit-image (float64) receive the same angles",
                "iradon: angle sets for which some unmasked pixel's detector position lies within 1e-4 of the detector end are "
                "re-drawn (the interpolant is discontinuous there: value vs 0; float32 and float64 positions may fall on different sides); cases with a re-drawn angle set are counted in the evidence",
@@ -311,7 +343,9 @@ def t_filter(size, name, form="kw", device=None, dtype=None):
 
 def s_filter(size, name):
     from skimage.transform.radon_transform import _get_fourier_filter
-    return np.asarray(_get_fourier_filter(size, name), dtype=np.float64).ravel()
+    with warnings.catch_warnings():
+        warnings.simplefilter("ignore")
+        return np.asarray(_get_fourier_filter(size, name), dtype=np.float64).ravel()
 
 
 def t_iradon_raw(sinos_t, theta_t, filt, circle, out_size=None, form="kw", device=None):
@@ -404,6 +438,12 @@ class Model:
         N = img.shape[0]
         r = self.ask({"op": "radon", "alg": alg, "n": N, "img": bits(img), "theta": bits(thetas)})
         return unbits(r["ok"], (len(thetas), N))
+
+    def radon_batch(self, imgs, thetas):
+        """[B, N, N] -> [B, A, N] through the model of the batched write loop (radonTorchBatchLoop)"""
+        B, N = len(imgs), imgs[0].shape[0]
+        r = self.ask({"op": "radon_batch", "alg": "torch", "n": N, "b": B, "img": bits(np.stack(imgs)), "theta": bits(thetas)})
+        return unbits(r["ok"], (B, len(thetas), N))
 
     def filt(self, alg, size, name):
         r = self.ask({"op": "filter", "alg": alg, "size": size, "name": name if name is not None else "none"})
@@ -531,6 +571,14 @@ def case_radon(ctx, model, case, with_model=True):
                 ctx.disagree("radonTorch", case, *views(tb[b], mt), note=f"maxdiff {dt:.3g}")
             if ds > TOL64 * scale(ms):
                 ctx.disagree("radonSk", case, *views(ref, ms), note=f"maxdiff {ds:.3g}")
+    # (3b) the batched call against the model of the batched write loop (one zero tensor, one slice assignment per angle)
+    if with_model and model.drv is not None and B >= 2 and case.get("batch_model", False):
+        mb = model.radon_batch([im.astype(np.float64) for im in imgs], thetas)
+        ctx.dist["radon:batched-write-loop-model-compared"] += 1
+        db = maxdiff(tb, mb)
+        ctx.stat_max("radon batched model-vs-torch rel", db / scale(mb))
+        if db > TOL32 * scale(mb):
+            ctx.disagree("radonTorchBatchLoop", case, *views(tb, mb), note=f"maxdiff {db:.3g}")
     # (4) linearity on the implementation: R(a x + b y) = a R(x) + b R(y)
     if B >= 2:
         a, c = case.get("coef", [2.0, -0.5])
@@ -1024,8 +1072,9 @@ def case_history(ctx, model, case):
                 d = maxdiff(got, want)
                 ctx.stat_max("history: call in history vs same call on a fresh module instance (rel)", d / scale(want) if d != float("inf") else 1.0)
                 if d > TOL_BATCH * scale(want):
-                    h.disagree(f"stateless-{op['kind']}", op, {"history-free": worst(got, want).get("required")}, {"in-history": worst(got, want)},
-                               note=f"the result of a call depends on the calls made before it (maxdiff {d:.3g}); the model has no state")
+                    h.disagree(f"stateless-{op['kind']}", op, *views(got, want),
+                               note=f"the result of a call depends on the calls made before it: it differs from the same call on a fresh "
+                                    f"instance of the module by {d:.3g} (model: no state, session_history_independent)")
             # (b) the call inside the history checked like any single call (reference: scikit-image)
             dispatch(h, model, op, with_model=bool(op.get("with_model", False)))
     finally:
@@ -1091,7 +1140,7 @@ def gen_radon_case(rng, model_cost=True):
     A = rng.randint(1, 4 if model_cost else 8)
     B = rng.weighted([(1, 4), (2, 4), (3, 2)])
     return {"kind": "radon", "N": N, "img": rng.choice(IMG_KINDS), "seeds": [rng.next() % (1 << 30) for _ in range(B)],
-            "thetas": make_thetas(rng, A), "masked": rng.chance(0.5),
+            "thetas": make_thetas(rng, A), "masked": rng.chance(0.5), "batch_model": rng.chance(0.5),
             "layout": rng.weighted([("contig", 4), ("transposed", 2), ("permuted", 2), ("strided", 1), ("f64", 1), ("f64-transposed", 1)]),
             "theta_layout": rng.weighted([("f32", 6), ("f64", 1), ("strided", 1), ("i64", 1)]), "keepdim": rng.chance(0.5),
             "form": rng.weighted([("kw", 3), ("min", 1), ("pos", 1)]), "device": rng.weighted([(None, 4), ("cpu", 1), ("torch.device", 1)]),
@@ -1320,6 +1369,13 @@ def run(ctx):
             dispatch(ctx, model, gen_history(ctx, rng))
     finally:
         model.close()
+    try:
+        import inspect
+        m = radon_mod()
+        ctx.extra["signatures (recorded; defaults and argument order are exercised by the call-form draws)"] = {
+            fn: str(inspect.signature(getattr(m, fn))) for fn in ("radon_torch", "iradon_torch", "get_fourier_filter_torch")}
+    except Exception:  # noqa
+        pass
     ctx.extra["tolerances"] = {"model-vs-torch (float32 rule)": TOL32, "model-vs-skimage (float64)": TOL64, "torch-vs-skimage": TOL_PRED,
                                "filter torch-vs-skimage": TOL_FILTER, "batched-vs-single": TOL_BATCH, "linearity": TOL_LIN,
                                "rule": "|a-b| <= tol*max(1,max|reference|)"}
